@@ -1,7 +1,7 @@
 (* C19 -- proofs: the layered alias index of PGPKeyring refines the set of (identifier, key) pairs of the loaded keys,
    for every reachable state.  Part A is the design spike (DESIGN.md A.6) adapted to string aliases, dict insertion order and the
    blank-insensitive membership test; part B adds unload, add_key with subkeys, the state invariant and the lifting. *)
-From Coq Require Import ZArith List Bool Lia Permutation.
+From Coq Require Import ZArith List Bool Lia ZifyBool Permutation.
 Import ListNotations.
 Require Import PV.Lib.Bytes PV.Lib.BytesLemmas PV.Model.Keyring PV.Spec.Keyring_spec.
 Open Scope Z_scope.
@@ -16,6 +16,36 @@ Lemma aeqb_refl a : aeqb a a = true.
 Proof. destruct (aeqb_spec a a); congruence. Qed.
 Lemma alias_eq_dec (a b : alias) : {a = b} + {a <> b}.
 Proof. apply (list_eq_dec Z.eq_dec). Qed.
+
+(* ---- the model's boolean `unspaced` and the specification's `id_shape` say the same ---- *)
+Lemma hexdigit_spec c : hexdigit c = true <-> hex_digit c.
+Proof. unfold hexdigit, hex_digit. lia. Qed.
+Lemma id_shaped_spec s : id_shaped s = true <-> id_shape s.
+Proof.
+  unfold id_shaped, id_shape. rewrite andb_true_iff, forallb_forall, Forall_forall. cbv zeta. split.
+  - intros [H1 H2]. split; [lia|]. intros c Hc. apply hexdigit_spec. auto.
+  - intros [H1 H2]. split; [|lia]. intros c Hc. apply hexdigit_spec. auto.
+Qed.
+Lemma selects_unspaced i a : selects i a <-> carries i a \/ carries i (unspaced a).
+Proof.
+  unfold selects, unspaced. cbv zeta. destruct (id_shaped (strip a)) eqn:E.
+  - apply id_shaped_spec in E. tauto.
+  - assert (~ id_shape (strip a)) by (intro H; apply id_shaped_spec in H; congruence). tauto.
+Qed.
+(* identifiers that are not a fingerprint / key id written in groups are taken literally ... *)
+Lemma unspaced_literal a : ~ id_shape (strip a) -> unspaced a = a.
+Proof.
+  intros H. unfold unspaced. cbv zeta. destruct (id_shaped (strip a)) eqn:E; [|reflexivity].
+  apply id_shaped_spec in E. contradiction.
+Qed.
+Lemma selects_literal i a : ~ id_shape (strip a) -> (selects i a <-> carries i a).
+Proof. unfold selects. tauto. Qed.
+(* ... and a fingerprint / key id / short id of hexadecimal digits is found however it is grouped *)
+Lemma selects_grouped i a : carries i (strip a) -> id_shape (strip a) -> selects i a.
+Proof. unfold selects. tauto. Qed.
+(* what the old rule accepted and the new one does not: only space-free forms that are not id-shaped *)
+Lemma selects_implies_old i a : selects i a -> selects_old i a.
+Proof. unfold selects, selects_old. tauto. Qed.
 
 Lemma NoDup_snoc {A} (l : list A) x : NoDup l -> ~ In x l -> NoDup (l ++ [x]).
 Proof.
@@ -100,7 +130,7 @@ Proof.
   apply (in_pids a ls k HI) in Hq. destruct (pids a ls); [contradiction|discriminate].
 Qed.
 
-Lemma containsS_false a ls : containsS a ls = false -> contains a ls = false /\ contains (strip a) ls = false.
+Lemma containsS_false a ls : containsS a ls = false -> contains a ls = false /\ contains (unspaced a) ls = false.
 Proof. unfold containsS. apply orb_false_iff. Qed.
 
 (* placing ks (no more than there are layers) into layers that no longer mention a *)
@@ -259,7 +289,7 @@ Section WithSort.
   Theorem add_alias_refines a k ls : Inv ls ->
     Inv (add_alias sort a k ls) /\ forall p, In p (abs (add_alias sort a k ls)) <-> p = (a, k) \/ In p (abs ls).
   Proof.
-    intros HI. unfold add_alias. destruct (containsS a ls) eqn:Ec; cbn [negb].
+    intros HI. unfold add_alias, add_alias_with. destruct (containsS a ls) eqn:Ec; cbn [negb].
     - destruct (existsb (Z.eqb k) (pids a ls)) eqn:Ee.
       + split; [exact HI|]. intros p. split; [auto|]. intros [->|H]; [|exact H].
         apply existsb_exists in Ee as [k' [Hk' Hkk]]. apply Z.eqb_eq in Hkk. subst k'. apply in_pids; assumption.
@@ -288,7 +318,7 @@ Section WithSort.
   Lemma unstep_spec k a ls : Inv ls ->
     Inv (unstep sort k ls a) /\ forall p, In p (abs (unstep sort k ls a)) <-> In p (abs ls) /\ p <> (a, k).
   Proof.
-    intros HI. unfold unstep.
+    intros HI. unfold unstep, unstep_with.
     match goal with |- context [map (filter ?g) ls] => set (f := g) end.
     assert (Hf : forall p, f p = true <-> p <> (a, k)).
     { intros [b k']. unfold f. cbn. rewrite negb_true_iff, andb_false_iff. split.
@@ -346,7 +376,7 @@ Section WithSort.
   Qed.
   Lemma unstep_nonempty k a ls : Inv ls -> ls <> [] -> unstep sort k ls a <> [].
   Proof.
-    intros HI Hne. unfold unstep.
+    intros HI Hne. unfold unstep, unstep_with.
     match goal with |- context [map (filter ?g) ls] => set (s1 := map (filter g) ls) end.
     assert (HI1 : Inv s1) by (apply map_filter_ok; exact HI).
     destruct (containsS a s1) eqn:E.
@@ -449,7 +479,7 @@ Section WithSort.
 
   Lemma unload_one_SInv s i : SInv s -> SInv (unload_one sort s i).
   Proof.
-    intros (HI & Hp & Hnd & Hne). unfold unload_one. destruct (has_key (kid i) (keys s)) eqn:E.
+    intros (HI & Hp & Hnd & Hne). unfold unload_one, unload_one_with. destruct (has_key (kid i) (keys s)) eqn:E.
     - destruct (unload_layers_spec (kid i) (lays s) HI) as [HI' Hp'].
       unfold SInv. cbn [keys lays]. split; [exact HI'|]. split; [|split].
       + intros p. rewrite Hp', Hp, !in_pairs_of. split.
@@ -467,7 +497,7 @@ Section WithSort.
 
   Lemma unload_SInv s k : SInv s -> SInv (unload sort s k).
   Proof.
-    intros H. unfold unload. destruct (has_key (kid (fst k)) (keys s)); [|exact H].
+    intros H. unfold unload, unload_with. destruct (has_key (kid (fst k)) (keys s)); [|exact H].
     destruct (kprimary (fst k)); [apply unload_ones_SInv|]; apply unload_one_SInv; exact H.
   Qed.
 
@@ -495,7 +525,7 @@ Section WithSort.
 
   Lemma keys_unload_one s i : keys (unload_one sort s i) = drop (kid i) (keys s).
   Proof.
-    unfold unload_one. destruct (has_key (kid i) (keys s)) eqn:E; [reflexivity|].
+    unfold unload_one, unload_one_with. destruct (has_key (kid i) (keys s)) eqn:E; [reflexivity|].
     symmetry. apply drop_not_loaded. exact E.
   Qed.
 
@@ -509,7 +539,8 @@ Section WithSort.
     - unfold add_key, add_key_with. cbn [fst snd]. change (has_key (kid i) (keys s)) with (is_loaded (kid i) (keys s)).
       destruct (is_loaded (kid i) (keys s)) eqn:E; [reflexivity|].
       fold (add_one sort). rewrite keys_add_ones, keys_add_one. unfold add_new. rewrite E. reflexivity.
-    - unfold unload. cbn [fst snd]. change (has_key (kid i) (keys s)) with (is_loaded (kid i) (keys s)).
+    - unfold unload, unload_with. cbn [fst snd]. change (has_key (kid i) (keys s)) with (is_loaded (kid i) (keys s)).
+      fold (unload_one sort).
       destruct (is_loaded (kid i) (keys s)) eqn:E; [|reflexivity].
       destruct (kprimary i); [rewrite keys_unload_ones|]; rewrite keys_unload_one; reflexivity.
   Qed.
